@@ -134,20 +134,6 @@ def replay_envs(c):
         if ev3 is not None and (ev3["applicable"], ev3["outcome"]) != (ev["applicable"], ev["outcome"]):
             ev3["env"] = "float-exponent"
             out.append(ev3)
-    if not c["hole"] and c["expect"] == "apply" and ev["outcome"] == "ok":
-        import numpy as np
-        ev2 = dict(ev)
-        ev2["env"] = "np-raise"
-        try:
-            with np.errstate(all="raise"):
-                rule = _RULES[(c["rule"], c["opt"], common.pick(json.dumps(c["inp"], sort_keys=True) + str(c["path"]), 2))]
-                node = navigate(build_json(c["inp"]), c["path"])
-                ev2["applicable"] = bool(rule.can_apply_to(node))
-        except BaseException as e:  # noqa
-            ev2["applicable"] = False
-            ev2["outcome"] = "can_apply:" + type(e).__name__
-        if ev2["applicable"] != ev["applicable"] or ev2["outcome"] != ev["outcome"]:
-            out.append(ev2)
     return out
 
 
